@@ -1,1 +1,5 @@
-//! Shared fixtures of the v_schema monitors.
+//! Shared fixtures of the C13 monitors: type/value generators, comparison helpers, the
+//! schema-only oracles (also run under Miri by `c13_miri`) and the derive-macro struct family.
+pub mod generate;
+pub mod oracle;
+pub mod typed;
